@@ -452,6 +452,10 @@ class C19(Prop):
       case = {'op': 'run', 'code': code, 'explicit': explicit, 'scopes': scopes, 'tree': tree}
       if rng.chance(0.3):
         case['pre'] = [gen_perms(rng, kinds) for _ in range(rng.randint(1, 2))]
+      if rng.chance(0.3):
+        # the other public entry point: pg.coding.run in the current process (sandbox=False), with
+        # and without a timeout; it must gate and behave exactly like evaluate
+        case['entry'] = rng.choice(['run', 'run_timeout'])
       yield case
     # every single construct x every single-flag-missing subset (small, exhaustive grid)
     singles = ['x = 1', 'x = 1\nx += 1', 'x: int = 1', '(x := 1)', 'if 1:\n  pass', 'match 1:\n  case _:\n    pass',
@@ -472,6 +476,19 @@ class C19(Prop):
       flag = REQUIRED[inner_kinds[0]] if inner_kinds else 'CALL'
       yield {'op': 'run', 'code': code, 'explicit': [f for f in FLAGS if f != flag], 'scopes': [], 'tree': tree}
       yield {'op': 'run', 'code': code, 'explicit': None, 'scopes': [list(FLAGS)], 'tree': tree}
+    for code in singles:
+      tree = tree_of(ast.parse(code))
+      kinds = [k for k, _ in kinds_of(tree) if k in REQUIRED]
+      flag = REQUIRED[kinds[0]] if kinds else 'CALL'
+      for entry in ('run', 'run_timeout'):
+        # the flag withdrawn by the scope only / by the explicit argument only / by a scope while
+        # the explicit argument grants everything
+        yield {'op': 'run', 'code': code, 'explicit': None, 'scopes': [[f for f in FLAGS if f != flag]],
+               'tree': tree, 'entry': entry}
+        yield {'op': 'run', 'code': code, 'explicit': [f for f in FLAGS if f != flag], 'scopes': [],
+               'tree': tree, 'entry': entry}
+        yield {'op': 'run', 'code': code, 'explicit': list(FLAGS), 'scopes': [[f for f in FLAGS if f != flag]],
+               'tree': tree, 'entry': entry}
     for code in singles:
       tree = tree_of(ast.parse(code))
       if tier == 'thorough':      # all 256 permission subsets, as explicit argument and as scope
@@ -552,8 +569,15 @@ class C19(Prop):
         slot_inside = names_of(coding.get_permission())
         builtins.exec, builtins.eval, builtins.compile = exec_w, eval_w, compile_w
         try:
-          out = coding.evaluate(code, global_vars={'SENTINEL': sentinel, 'CTX': contextlib.nullcontext},
-                                permission=perm(case['explicit']), outputs_intermediate=True)
+          entry = case.get('entry', 'evaluate')
+          gv = {'SENTINEL': sentinel, 'CTX': contextlib.nullcontext}
+          if entry == 'evaluate':
+            out = coding.evaluate(code, global_vars=gv, permission=perm(case['explicit']),
+                                  outputs_intermediate=True)
+          else:
+            out = coding.run(code, global_vars=gv, permission=perm(case['explicit']),
+                             outputs_intermediate=True, sandbox=False,
+                             timeout=(30.0 if entry == 'run_timeout' else None))
         finally:
           builtins.exec, builtins.eval, builtins.compile = real_exec, real_eval, real_compile
         obs = {'outcome': 'ok', 'stdout': _canon_text(out.pop('__stdout__', None)),
